@@ -12,6 +12,8 @@ Line protocol of the geometric display list of C17 (driver_c17).
           | (R id geo (cell …))         a table row: its geometry and the ids of its cells (B entries)
           | (G id geo ((cell …) …))     a row group: the cells of each of its rows
           | (K id geo (cell …))         a column or column group: `get_cells()`
+          | (P id (bbx bby bw bh) (top right bottom left))   border box and `clip` of an absolutely positioned
+                                box (`auto` or a length each)
           | (T id x y size)     text origin (`position_x`, `position_y + baseline`) and font size
   → one token per painted item:
       kind:colour:alphas:transforms:clip|clip|…:geometry
@@ -25,6 +27,7 @@ import WpModel.Model.PaintOrder
 import WpModel.Model.LaidOut
 import WpModel.Model.RoundedBox
 import WpModel.Model.TablePartBg
+import WpModel.Model.ClipRect
 import WpModel.Drive.Stacking
 import WpModel.Drive.Rounded
 
@@ -58,6 +61,7 @@ inductive PartKind where
 structure Table where
   boxes : List (Nat × Geo × BgClip) := []
   parts : List (Nat × PartKind × Geo × List (List Nat)) := []
+  clipProps : List (Nat × (Rat × Rat × Rat × Rat)) := []      -- the operands of the `clip` rectangle
   areas : List (Nat × (Rat × Rat × Rat × Rat)) := []
   canvas : List (Nat × (Rat × Rat × Rat × Rat)) := []
   texts : List (Nat × (Rat × Rat × Rat)) := []
@@ -82,6 +86,12 @@ def entry? (t : Table) : Sx → Option Table
   | .list [.atom "G", id, g, .list rows] => do
     let rows ← allSome (fun r => match r with | .list cells => allSome Sx.nat? cells | _ => none) rows
     pure { t with parts := ((← id.nat?), .group, (← Wp.Drive.Rounded.geo? g), rows) :: t.parts }
+  | .list [.atom "P", id, .list [bbx, bby, bw, bh], .list [top, right, bottom, left]] => do
+    let side (x : Sx) : Option (Option Rat) := match x with | .atom "auto" => some none | y => y.rat?.map some
+    let c : Wp.ClipRect.ClipProp :=
+      { top := (← side top), right := (← side right), bottom := (← side bottom), left := (← side left) }
+    pure { t with clipProps :=
+      ((← id.nat?), Wp.ClipRect.clipRect (← bbx.rat?) (← bby.rat?) (← bw.rat?) (← bh.rat?) c) :: t.clipProps }
   | .list [.atom "T", id, x, y, sz] => do
     pure { t with texts := ((← id.nat?), ((← x.rat?), (← y.rat?), (← sz.rat?))) :: t.texts }
   | _ => none
@@ -133,6 +143,7 @@ def showClip (t : Table) : Clip → String
       | some (g, k) => showPath (roundedPath (clippedBox g k)) | none => "*"
     else "*"
   | .bgArea role id => areaOf t role id
+  | .clipProp id => match t.clipProps.lookup id with | some r => rect r | none => "*"
   | _ => "*"
 
 /-- `box.border_*_width` count of every box id of the tree (for the simple border case). -/
